@@ -120,7 +120,7 @@ FP = {"do_block": "stub_do_block", "write_at": "stub_write_at",
 
 HARNESSES = [
     dict(name="meta_flush", file="meta_flush.c", label="proved", fp=FP,
-         unwind=34, malloc_fail=True, timeout=170,
+         unwind=34, malloc_fail=True, timeout=600,
          cases=[dict(id="all", tier="quick")]),
     dict(name="meta_append", file="meta_append.c", label="proved", fp=FP,
          loops=["sqfs_meta_writer_append"], timeout=900, unwind=34,
@@ -130,7 +130,7 @@ HARNESSES = [
          pre_instrument_flags=["--replace-calls", "sqfs_meta_writer_flush:stub_flush",
                                "--remove-function-body", "meta_writer_destroy"],
          cases=[dict(id="all", tier="quick")]),
-    dict(name="data_contig_deq", file="data_contig.c", timeout=300, unwind=5,
+    dict(name="data_contig_deq", file="data_contig.c", timeout=900, unwind=5,
          label="bounded(blocks in pool <= 2)", nochecks=["--conversion-check"],
          include_dirs=["lib/sqfs/src/block_processor"],
          fp={"dequeue": "stub_pool_dequeue", "get_status": "stub_pool_status",
@@ -139,14 +139,14 @@ HARNESSES = [
                                "--replace-calls", "process_completed_fragment:stub_pcf"],
          cases=[dict(id="k%d%d" % (a, b), defines={"K0": a, "K1": b}, tier="quick")
                 for (a, b) in ((1, 0), (3, 0), (4, 0), (1, 3), (3, 1), (1, 1), (2, 3), (4, 3))]),
-    dict(name="data_contig_frag", file="data_contig.c", timeout=300, unwind=5,
+    dict(name="data_contig_frag", file="data_contig.c", timeout=900, unwind=5,
          label="bounded(block size <= 8)", nochecks=["--conversion-check"],
          include_dirs=["lib/sqfs/src/block_processor"],
          fp={"dequeue": "stub_pool_dequeue", "get_status": "stub_pool_status",
              "write_data_block": "stub_write_data_block"},
          cases=[dict(id="overflow", defines={"OP_FRAGMENT": None, "K0": 4, "K1": 0},
                      tier="quick")]),
-    dict(name="serialize_node", file="serialize_node.c", label="proved", timeout=300,
+    dict(name="serialize_node", file="serialize_node.c", label="proved", timeout=900,
          unwind=4, nochecks=["--conversion-check"],
          include_dirs=["lib/common/src/writer"],
          cases=[dict(id="file_ext", defines={"KIND": "'F'", "FTYPE": 9}, tier="quick"),
@@ -158,15 +158,15 @@ HARNESSES = [
          native_sources=["lib/util/src/alloc.c"],
          cases=[dict(id="type%d" % t, defines={"TYPE": t}, tier="quick")
                 for t in range(0, 15)]),
-    dict(name="ids_write", file="ids_write.c", label="proved", timeout=170,
+    dict(name="ids_write", file="ids_write.c", label="proved", timeout=600,
          loops=["sqfs_id_table_write"], flags=["--arrays-uf-always"],
          cases=[dict(id="all", tier="quick")]),
-    dict(name="write_table", file="write_table.c", label="proved", timeout=170,
+    dict(name="write_table", file="write_table.c", label="proved", timeout=600,
          loops=["sqfs_write_table"], flags=["--arrays-uf-always"],
          fp={"get_size": "stub_get_size", "write_at": "stub_write_at",
              "destroy": "stub_mw_destroy"},
          cases=[dict(id="all", tier="quick")]),
-    dict(name="frag_write", file="frag_write.c", label="proved", timeout=170,
+    dict(name="frag_write", file="frag_write.c", label="proved", timeout=600,
          loops=["sqfs_frag_table_write"], flags=["--arrays-uf-always"],
          nochecks=["--conversion-check"],
          cases=[dict(id="all", tier="quick")]),
@@ -177,10 +177,10 @@ HARNESSES = [
                      unwind=n + 2,
                      tier="quick" if (n, g) in ((1, 3), (512, 8194), (2, 3)) else "thorough")
                 for n in (1, 2, 511, 512, 513, 1024, 1025) for g in (3, 8194)]),
-    dict(name="dir_add", file="dir_add.c", label="proved", timeout=170, unwind=4,
+    dict(name="dir_add", file="dir_add.c", label="proved", timeout=600, unwind=4,
          cases=[dict(id="all", tier="quick")]),
     dict(name="dir_end", file="dir_end.c", label="bounded(entries<=3,name<=4)",
-         timeout=300, unwind=13, nochecks=["--conversion-check"],
+         timeout=900, unwind=13, nochecks=["--conversion-check"],
          pre_instrument_flags=["--replace-calls", "get_conseq_entry_count:stub_conseq"],
          cases=[dict(id="r%d%d%d" % r,
                      defines=dict({"R0": r[0], "R1": r[1], "R2": r[2]},
@@ -188,17 +188,17 @@ HARNESSES = [
                      tier="quick" if sum(r) <= 2 or r == (2, 1, 0) else "thorough")
                 for r in ((1, 0, 0), (2, 0, 0), (1, 1, 0), (3, 0, 0), (2, 1, 0),
                           (1, 2, 0), (1, 1, 1))]),
-    dict(name="post_dense", file="post_dense.c", timeout=170, unwind=9,
+    dict(name="post_dense", file="post_dense.c", timeout=600, unwind=9,
          label="bounded(all tree shapes <= 5 nodes, <= 2 hard links; 6 nodes sampled)",
          include_dirs=["lib/fstree/src"], cases=_POST_CASES),
-    dict(name="export_tbl", file="export_tbl.c", label="proved", timeout=170, unwind=4,
+    dict(name="export_tbl", file="export_tbl.c", label="proved", timeout=600, unwind=4,
          flags=["--arrays-uf-always"],
          cases=[dict(id="add", defines={"OP_WRITE": 0}, tier="quick"),
                 dict(id="write", defines={"OP_WRITE": 1}, tier="quick")]),
     dict(name="dir_inode", file="dir_inode.c", label="bounded(index<=3,name<=4)",
-         timeout=170, unwind=14,
+         timeout=600, unwind=14,
          cases=[dict(id="n%d" % n, defines={"NIDX": n}, tier="quick") for n in range(4)]),
-    dict(name="finish_pad", file="finish_pad.c", timeout=300, unwind=4,
+    dict(name="finish_pad", file="finish_pad.c", timeout=900, unwind=4,
          label="bounded(devblksize = 2^k, k = 0..32)",
          fp={"get_size": "stub_get_size", "write_at": "stub_write_at"},
          cases=[dict(id="blk%d" % (1 << k), defines={"BLK": 1 << k},
@@ -207,7 +207,7 @@ HARNESSES = [
                [dict(id="blk3000_s24", defines={"BLK": 3000, "SIZEBITS": 24},
                      tier="thorough",
                      label="bounded(devblksize = 3000, image < 2^24)")]),
-    dict(name="dir_run", file="dir_run.c", label="proved", timeout=3000,
+    dict(name="dir_run", file="dir_run.c", label="proved", timeout=9000,
          nochecks=["--conversion-check"], weight=20,
          cases=[dict(id="n257", defines={"DR_N": 257}, unwind=258, tier="quick",
                      flags=["--max-field-sensitivity-array-size", "300"]),
@@ -218,11 +218,11 @@ HARNESSES = [
                      unwind=10, tier="quick", label="bounded(list<=8)", weight=2),
                 dict(id="blk_n16", defines={"DR_N": 16, "DR_BLK": None, "DR_WIT": None},
                      unwind=18, tier="thorough", label="bounded(list<=16)", weight=2)]),
-    dict(name="comp", file="comp.c", label="proved", unwind=12, timeout=300,
+    dict(name="comp", file="comp.c", label="proved", unwind=12, timeout=900,
          include_dirs=["lib/sqfs/src/comp"],
          cases=[dict(id=c, defines={"COMP_" + c: None}, tier="quick")
                 for c in ("gzip", "xz", "lz4", "zstd", "lzma")]),
-    dict(name="ids_index", file="ids_index.c", label="proved", timeout=170,
+    dict(name="ids_index", file="ids_index.c", label="proved", timeout=600,
          loops=["sqfs_id_table_id_to_index"], flags=["--arrays-uf-always"],
          cases=[dict(id="all", tier="quick")]),
 ]
